@@ -60,6 +60,10 @@ def opFn (j : Json) : Except String Json := do
   if name == "routing_param_disambiguated_field" then
     let a0 ← argStr j 0
     return Json.mkObj [("r", jstr (Pinned.Funcs.routing_param_disambiguated_field a0))]
+  if name == "client_method_name" then
+    let a0 ← argStr j 0
+    let a1 ← argBool j 1
+    return Json.mkObj [("r", jstr (Pinned.Funcs.client_method_name a0 a1))]
   throw s!"unknown translated function {name}"
 
 def opsFuncs : List (String × (Json → Except String Json)) := [("fn", opFn)]
